@@ -97,59 +97,87 @@ func (ul *Upstreams) open(manager cert.TlsConfig) (err error) {
 	return errors.Errorf("Could not connect to any upstream endpoints!")
 }
 
-// openStream will select a specific subprotocol stream within our session
-func (ul *Upstreams) openStream(subProtocol string) (streams.ReadWriteCloserClosed, error) {
-	conn, err := ul.session.OpenStream()
+// openStream will select a specific subprotocol stream within the given session. The returned flag tells
+// if the failure is one of the session (as opposed to one of this stream only, e.g. a refused channel).
+func (ul *Upstreams) openStream(session *smux.Session, subProtocol string) (streams.ReadWriteCloserClosed, bool, error) {
+	conn, err := session.OpenStream()
 
 	if err != nil {
-		return nil, err
+		return nil, true, err
 	}
 
-	stream := streams.NewNamedStream(conn, ul.session.RemoteAddr().String())
+	stream := streams.NewNamedStream(conn, session.RemoteAddr().String())
 	err = ms.SelectProtoOrFail(fmt.Sprintf("/%s", subProtocol), stream)
 	if err != nil {
 		if e := streams.LogClose(stream); e != nil {
 			log.WithError(e).Errorf("Failed closing the connection: %+v", e)
 		}
-		return nil, errors.Wrapf(err, "Could no select protocol %s", subProtocol)
+		return nil, session.IsClosed(), errors.Wrapf(err, "Could no select protocol %s", subProtocol)
 	}
 
-	return streams.NewNamedStream(stream, subProtocol), err
+	return streams.NewNamedStream(stream, subProtocol), false, err
+}
+
+// discard closes and forgets the current session and physical connection. Must be called with the mutex held.
+func (ul *Upstreams) discard() {
+	if ul.session != nil {
+		streams.TryClose(ul.session)
+	}
+	if ul.connection != nil && !ul.connection.Closed() {
+		streams.TryClose(ul.connection)
+	}
+	ul.connection = nil
+	ul.session = nil
 }
 
 // Connect will return a mutex stream to the first upstream available. If an upstream connection is already opened,
 // it will be reused -- only one physical connection will be opened against the server, no matter how many logical
-// connections you start.
+// connections you start. A session that turns out to be dead (carrier lost, server restarted) is discarded and a
+// new one is established transparently.
 func (ul *Upstreams) Connect(config cert.ConfigGetter, subProtocol string) (streams.ReadWriteCloserClosed, error) {
-	var err error
+	var lastErr error
 
-	ul.mutex.Lock()
-	if ul.connection == nil || ul.connection.Closed() {
-		ul.connection = nil
-		ul.session = nil
-		err = ul.open(config.CertManager())
+	for attempt := 0; attempt < 2; attempt++ {
+		var err error
+
+		ul.mutex.Lock()
+		if ul.connection == nil || ul.connection.Closed() || ul.session == nil || ul.session.IsClosed() {
+			ul.discard()
+			err = ul.open(config.CertManager())
+		}
+		session := ul.session
+		ul.mutex.Unlock()
+
+		if err != nil {
+			return nil, err
+		}
+
+		stream, sessionFailed, err := ul.openStream(session, subProtocol)
+		if err == nil {
+			return stream, nil
+		}
+		lastErr = err
+		if !sessionFailed {
+			break
+		}
+
+		// The session has died since it was established. Forget it (unless somebody already replaced it) and retry.
+		log.WithError(err).Debugf("Upstream session is gone, will reconnect: %v", err)
+		ul.mutex.Lock()
+		if ul.session == session {
+			ul.discard()
+		}
+		ul.mutex.Unlock()
 	}
-	ul.mutex.Unlock()
 
-	if err != nil {
-		return nil, err
-	}
-
-	return ul.openStream(subProtocol)
+	return nil, lastErr
 }
 
 // Shutdown will close the connection to the connected upstream server
 func (ul *Upstreams) Shutdown() {
 	go func() {
 		ul.mutex.Lock()
-		if ul.session != nil {
-			streams.TryClose(ul.session)
-		}
-		if ul.connection != nil && !ul.connection.Closed() {
-			streams.TryClose(ul.connection)
-		}
-		ul.connection = nil
-		ul.session = nil
+		ul.discard()
 		ul.mutex.Unlock()
 	}()
 }
